@@ -1165,10 +1165,9 @@ bool tree<Key, Value, ValueEqual>::compare(
               return false;
             }
           } else {
-            if ((compare_left_to_right && !po.default_is_top()) ||
-                (!compare_left_to_right && po.default_is_top())) {
-              return false;
-            }
+            // t is not empty and it does not contain the key of s so
+            // each tree has a key that the other one lacks.
+            return false;
           }
           if (compare_left_to_right && po.default_is_top() && !t->is_leaf()) {
             return false;
